@@ -1390,6 +1390,136 @@ def gen_c13(repo):
     return 'pysparkling/sql/schema_utils.py (merge_schemas, get_on_fields), pysparkling/sql/internal_utils/joins.py (join type constants)', out
 
 
+# ---- C15: names of the schema and names of the rows, operation by operation ---------------------------------
+
+class TrNames:
+    """list comprehensions that build a schema (list of fields) or a row (list of (name, value) pairs): what matters here
+    is the NAME each output element carries, and how many elements there are. Elements: a field is its name; a pair
+    `(name, value)` is its name; `StructField(n, …)` is `n`."""
+
+    def __init__(self, srcs):
+        self.srcs = srcs            # python source text of an iterable -> (lean list, lean element type tag)
+
+    def name_of(self, e, env):
+        src = ast.unparse(e)
+        if isinstance(e, ast.Name) and e.id in env:
+            return env[e.id]
+        if isinstance(e, ast.Attribute) and isinstance(e.value, ast.Name) and e.attr == 'name' and e.value.id in env:
+            return env[e.value.id]                              # a field is represented by its name
+        if isinstance(e, ast.Tuple) and len(e.elts) == 2:
+            return self.name_of(e.elts[0], env)                 # (name, value)
+        if isinstance(e, ast.Call) and ast.unparse(e.func) == 'StructField' and e.args:
+            return self.name_of(e.args[0], env)
+        if isinstance(e, ast.IfExp):
+            return '(if %s then %s else %s)' % (self.test(e.test, env), self.name_of(e.body, env), self.name_of(e.orelse, env))
+        raise NotTranslatable('element ' + src[:80])
+
+    def test(self, e, env):
+        if isinstance(e, ast.Compare) and len(e.ops) == 1 and isinstance(e.ops[0], (ast.Eq, ast.NotEq)):
+            t = '%s = %s' % (self.name_of(e.left, env), self.name_of(e.comparators[0], env))
+            return '(%s)' % t if isinstance(e.ops[0], ast.Eq) else '(¬ %s)' % t
+        if isinstance(e, ast.Compare) and len(e.ops) == 1 and isinstance(e.ops[0], ast.NotIn) and ast.unparse(e.comparators[0]) == 'positions_to_drop':
+            return '(¬ positions_to_drop.contains %s = true)' % self.name_of(e.left, env)
+        raise NotTranslatable('test ' + ast.unparse(e)[:80])
+
+    def source(self, e):
+        src = ast.unparse(e)
+        if src in self.srcs:
+            return self.srcs[src], 1
+        if isinstance(e, ast.Call) and ast.unparse(e.func) == 'zip' and len(e.args) == 2:
+            a, _ = self.source(e.args[0])
+            b, _ = self.source(e.args[1])
+            return '(List.zip %s %s)' % (a, b), 2
+        if isinstance(e, ast.Call) and ast.unparse(e.func) == 'enumerate' and len(e.args) == 1:
+            a, _ = self.source(e.args[0])
+            return '((%s).zipIdx.map fun p => (p.2, p.1))' % a, 2
+        raise NotTranslatable('iterable ' + src[:80])
+
+    def comp(self, e):
+        """-> lean term: the list of names of the elements the comprehension builds"""
+        if isinstance(e, ast.Call) and ast.unparse(e.func) == 'list' and len(e.args) == 1 and isinstance(e.args[0], ast.Call) \
+                and ast.unparse(e.args[0].func) == 'zip':
+            src, _ = self.source(e.args[0])
+            return '(%s.map fun p => p.1)' % src                # list(zip(names, row)): pairs (name, value)
+        if not isinstance(e, ast.ListComp) or len(e.generators) != 1:
+            raise NotTranslatable('comprehension shape ' + ast.unparse(e)[:80])
+        g = e.generators[0]
+        src, arity = self.source(g.iter)
+        env = {}
+        if arity == 1 and isinstance(g.target, ast.Name):
+            env[g.target.id] = 'x'
+            binder = 'x'
+        elif arity == 2 and isinstance(g.target, ast.Tuple) and len(g.target.elts) == 2 and all(isinstance(t, ast.Name) for t in g.target.elts):
+            env[g.target.elts[0].id], env[g.target.elts[1].id] = 'p.1', 'p.2'
+            binder = 'p'
+        else:
+            raise NotTranslatable('comprehension target')
+        for extra in ('existing', 'new'):
+            env[extra] = extra
+        lst = src
+        for cond in g.ifs:
+            lst = '(%s.filter fun %s => decide %s)' % (lst, binder, self.test(cond, env))
+        return '(%s.map fun %s => %s)' % (lst, binder, self.name_of(e.elt, env))
+
+
+def gen_c15(repo):
+    tree = parse(repo, 'pysparkling/sql/internals.py')
+    cls = find_class(tree, 'DataFrameInternal')
+
+    def method(name):
+        fns = [n for n in cls.body if isinstance(n, ast.FunctionDef) and n.name == name]
+        if len(fns) != 1:
+            raise NotTranslatable('DataFrameInternal.' + name)
+        return fns[0]
+
+    def comps(fn):
+        return [n for n in ast.walk(fn) if isinstance(n, ast.ListComp) or
+                (isinstance(n, ast.Call) and ast.unparse(n.func) == 'list' and n.args and ast.unparse(n.args[0]).startswith('zip('))]
+    srcs = {'self.bound_schema.fields': 'schema', 'row.__fields__': 'rowFields', 'row': 'rowValues', 'new_names': 'new_names'}
+    t = TrNames(srcs)
+    out = ('/-- a schema is the list of its field names; a row is the list of its field names next to its values (opaque: `Unit`) -/\n'
+           'abbrev Names := List String\n\n')
+
+    # withColumnRenamed
+    fn = method('withColumnRenamed')
+    cs = comps(fn)
+    rows = [c for c in cs if 'row.__fields__' in ast.unparse(c)]
+    schemas = [c for c in cs if 'self.bound_schema.fields' in ast.unparse(c)]
+    if len(rows) != 1 or len(schemas) != 1 or 'row_from_keyed_values(keyed_values)' not in ast.unparse(fn) \
+            or 'self._with_rdd(self._rdd.map(mapper), schema=new_schema)' not in ast.unparse(fn):
+        raise NotTranslatable('withColumnRenamed shape')
+    out += ('def renamedRowNames (existing new : String) (rowFields : Names) (rowValues : List Unit) : Names :=\n  %s\n' % t.comp(rows[0]))
+    out += ('def renamedSchemaNames (existing new : String) (schema : Names) : Names :=\n  %s\n\n' % t.comp(schemas[0]))
+
+    # toDF
+    fn = method('toDF')
+    cs = comps(fn)
+    rows = [c for c in cs if ast.unparse(c) == 'list(zip(new_names, row))']
+    schemas = [c for c in cs if 'self.bound_schema.fields' in ast.unparse(c)]
+    if len(rows) != 1 or len(schemas) != 1 or 'self._with_rdd(self._rdd.map(mapper), schema=new_schema)' not in ast.unparse(fn):
+        raise NotTranslatable('toDF shape')
+    out += 'def toDFRowNames (new_names : Names) (rowValues : List Unit) : Names :=\n  %s\n' % t.comp(rows[0])
+    out += 'def toDFSchemaNames (new_names : Names) (schema : Names) : Names :=\n  %s\n\n' % t.comp(schemas[0])
+
+    # drop (given the positions to drop)
+    fn = method('drop')
+    cs = comps(fn)
+    rows = [c for c in cs if 'row.__fields__' in ast.unparse(c)]
+    schemas = [c for c in cs if 'self.bound_schema.fields' in ast.unparse(c)]
+    if len(rows) != 1 or len(schemas) != 1 or ast.unparse(rows[0].elt) != '(field, row[i])':
+        raise NotTranslatable('drop shape')
+    out += 'def dropRowNames (positions_to_drop : List Nat) (rowFields : Names) : Names :=\n  %s\n' % t.comp(rows[0])
+    out += 'def dropSchemaNames (positions_to_drop : List Nat) (schema : Names) : Names :=\n  %s\n\n' % t.comp(schemas[0])
+
+    # union: the rows of `other` are re-keyed with the names of `self`; the schema is `self.bound_schema`
+    fn = method('union')
+    cs = [c for c in comps(fn) if 'zip(self.bound_schema.fields, row)' in ast.unparse(c)]
+    if len(cs) != 1 or 'self._with_rdd(self._rdd.union(other.rdd().map(change_col_names)), self.bound_schema)' not in ast.unparse(fn):
+        raise NotTranslatable('union shape')
+    out += 'def unionOtherRowNames (schema : Names) (rowValues : List Unit) : Names :=\n  %s\n' % t.comp(cs[0])
+    return 'pysparkling/sql/internals.py (DataFrameInternal.withColumnRenamed, toDF, drop, union: schema and row comprehensions)', out
+
+
 # ---- C05: CacheManager, TimedCacheManager, PersistedRDD.compute ------------------------------------
 
 ENTRY_FIELDS = ('mem_obj', 'disk_location')
@@ -1498,4 +1628,4 @@ def gen_c05(repo):
     return 'pysparkling/cache_manager.py (CacheManager.add/get/has/delete, TimedCacheManager.add/gc), pysparkling/rdd.py (PersistedRDD.compute)', out
 
 
-GENERATORS_M = {'C11': gen_c11, 'C04': gen_c04, 'C05': gen_c05, 'C10': gen_c10, 'C09': gen_c09, 'C20': gen_c20, 'C03': gen_c03, 'C08': gen_c08, 'C12': gen_c12, 'C01': gen_c01, 'C19': gen_c19, 'C13': gen_c13}
+GENERATORS_M = {'C11': gen_c11, 'C04': gen_c04, 'C05': gen_c05, 'C10': gen_c10, 'C09': gen_c09, 'C20': gen_c20, 'C03': gen_c03, 'C08': gen_c08, 'C12': gen_c12, 'C01': gen_c01, 'C19': gen_c19, 'C13': gen_c13, 'C15': gen_c15}
